@@ -1,4 +1,5 @@
 import PallasVerif.Model.Hash
+import PallasVerif.Model.Blake2bArray
 /-!
 # C10 — Blake2b hashing, hash values and nonce derivations match the reference
 
@@ -8,6 +9,12 @@ import PallasVerif.Model.Hash
   list (empty chunks, splits at block boundaries, the kept-back last block included). Proof: the
   invariant `(h, t, buf) = loop h₀ 0 (everything fed so far)` is preserved by `update`
   (`update_inv`), and finishing a `loop` result is the RFC block schedule (`rfcBlocks_eq_loop`).
+* `stream_eq_oneshot_array`: the same for the *array-level* transcription (`Model/Blake2bArray.lean`:
+  fixed 128-byte `buf`, cursor `buflen`, `copy_from_slice` as `blit`, zeroing and digest read-out of
+  `internal_final`), via the refinement `updateMut_refines` / `finalizeMut_refines` (stale bytes beyond
+  `buflen` never matter).
+* `blake2b_eq_rfc_indexed`: the reference `blake2b` is RFC 7693 §3.3 as printed (`d[0..dd-1]`,
+  `FOR i = 0 TO dd − 2`).
 * `hash_eq`, `hash_tagged_eq`, `hash_cbor_eq`, `hash_tagged_cbor_eq`: the four pallas entry points
   are the digest of (tag byte followed by) the bytes / the CBOR encoding.
 * `hash_hex_roundtrip`, `hash_from_str_length`, `hash_cbor_roundtrip`, `hash_decode_rejects`,
@@ -128,6 +135,176 @@ theorem split_independent (nn : Nat) (c1 c2 : List Bytes) (h : c1.flatten = c2.f
     hashChunks nn c1 = hashChunks nn c2 := by
   simp [hashChunks, stream_eq_oneshot, h]
 
+/-! ## The array-level transcription of cryptoxide's context refines the model above -/
+
+/-- abstraction: the live prefix of the array -/
+def absA (c : CtxA) : Ctx := { h := c.h, t := c.t, buf := c.buf.take c.buflen, outlen := c.outlen }
+
+def InvA (c : CtxA) : Prop := c.buf.length = 128 ∧ c.buflen ≤ 128
+
+theorem blit_length (dst : Bytes) (pos : Nat) (src : Bytes) (h : pos + src.length ≤ dst.length) :
+    (blit dst pos src).length = dst.length := by
+  simp [blit]; omega
+
+theorem blit_take (dst : Bytes) (pos : Nat) (src : Bytes) (h : pos ≤ dst.length) :
+    (blit dst pos src).take (pos + src.length) = dst.take pos ++ src := by
+  unfold blit
+  have h1 : (dst.take pos ++ src).length = pos + src.length := by simp; omega
+  rw [List.take_append_of_le_length (by omega), List.take_of_length_le (by omega)]
+
+theorem updateMut_refines (c : CtxA) (inp : Bytes) (hc : InvA c) :
+    absA (updateMut c inp) = update (absA c) inp ∧ InvA (updateMut c inp) := by
+  obtain ⟨hl, hb⟩ := hc
+  have habs : (absA c).buf.length = c.buflen := by simp [absA]; omega
+  unfold updateMut update
+  by_cases he : inp.isEmpty = true
+  · simp [he, InvA, hl, hb]
+  · simp only [he, Bool.false_eq_true, ↓reduceIte, habs]
+    by_cases hf : inp.length > 128 - c.buflen
+    · simp only [hf, ↓reduceIte]
+      have hfl : (inp.take (128 - c.buflen)).length = 128 - c.buflen := by simp; omega
+      have e1 : (blit c.buf c.buflen (inp.take (128 - c.buflen))).take 128 = c.buf.take c.buflen ++ inp.take (128 - c.buflen) := by
+        have := blit_take c.buf c.buflen (inp.take (128 - c.buflen)) (by omega)
+        rw [hfl] at this
+        have h128 : c.buflen + (128 - c.buflen) = 128 := by omega
+        rw [h128] at this; exact this
+      have hl1 : (blit c.buf c.buflen (inp.take (128 - c.buflen))).length = 128 := by
+        rw [blit_length _ _ _ (by rw [hfl]; omega)]; exact hl
+      rw [e1]
+      have hab : (absA c).buf = c.buf.take c.buflen := rfl
+      have hah : (absA c).h = c.h := rfl
+      have hat : (absA c).t = c.t := rfl
+      rw [hab, hah, hat]
+      generalize hr : loop (compress c.h (c.buf.take c.buflen ++ inp.take (128 - c.buflen)) (c.t + 128) false) (c.t + 128)
+        (inp.drop (128 - c.buflen)) = r
+      have hrl : r.2.2.length ≤ 128 := by rw [← hr]; exact loop_buf_le _ _ _
+      refine ⟨?_, ?_⟩
+      · simp only [absA]
+        have := blit_take (blit c.buf c.buflen (inp.take (128 - c.buflen))) 0 r.2.2 (by omega)
+        simp only [Nat.zero_add, List.take_zero, List.nil_append] at this
+        rw [this]
+      · refine ⟨?_, hrl⟩
+        show (blit _ 0 r.2.2).length = 128
+        rw [blit_length _ _ _ (by omega)]; exact hl1
+    · simp only [hf, ↓reduceIte]
+      refine ⟨?_, ?_⟩
+      · simp only [absA]
+        have := blit_take c.buf c.buflen inp (by omega)
+        rw [this]
+      · refine ⟨?_, by show c.buflen + inp.length ≤ 128; omega⟩
+        show (blit c.buf c.buflen inp).length = 128
+        rw [blit_length _ _ _ (by omega)]; exact hl
+
+theorem initA_refines (nn : Nat) : absA (initA nn) = init nn ∧ InvA (initA nn) := by
+  simp [absA, initA, init, InvA]
+
+theorem foldl_updateMut_refines (chunks : List Bytes) (c : CtxA) (hc : InvA c) :
+    absA (chunks.foldl updateMut c) = chunks.foldl update (absA c) ∧ InvA (chunks.foldl updateMut c) := by
+  induction chunks generalizing c with
+  | nil => exact ⟨rfl, hc⟩
+  | cons x xs ih =>
+    obtain ⟨h1, h2⟩ := updateMut_refines c x hc
+    simp only [List.foldl_cons]
+    rw [← h1]; exact ih _ h2
+
+theorem compress_size (h : H) (b : Bytes) (t : Nat) (l : Bool) : (compress h b t l).size = 8 := by
+  simp [compress]
+
+theorem words_length (l : List UInt64) : (l.flatMap leBytes64).length = 8 * l.length := by
+  induction l with
+  | nil => rfl
+  | cons a as ih => simp [List.flatMap_cons, leBytes64, ih]; omega
+
+theorem finalizeMut_refines (c : CtxA) (hc : InvA c) (ho : c.outlen ≤ 64) :
+    finalizeMut c = finalize (absA c) := by
+  obtain ⟨hl, hb⟩ := hc
+  simp only [finalizeMut, finalize]
+  have hlen : (absA c).buf.length = c.buflen := by simp [absA]; omega
+  have hrep : (List.replicate (128 - c.buflen) (0 : UInt8)).length = 128 - c.buflen := by simp
+  have e1 : (blit c.buf c.buflen (List.replicate (128 - c.buflen) 0)).take 128 = pad (absA c).buf := by
+    have := blit_take c.buf c.buflen (List.replicate (128 - c.buflen) 0) (by omega)
+    rw [hrep] at this
+    have h128 : c.buflen + (128 - c.buflen) = 128 := by omega
+    rw [h128] at this
+    rw [this]; simp [pad, absA, hlen]
+    congr 2; omega
+  rw [e1, hlen]
+  show _ = digestOf _ (absA c).outlen
+  unfold digestOf
+  generalize hh : compress (absA c).h (pad (absA c).buf) ((absA c).t + c.buflen) true = hv
+  have hsz : hv.size = 8 := by rw [← hh]; exact compress_size _ _ _ _
+  have hw : (hv.toList.flatMap leBytes64).length = 64 := by rw [words_length, Array.length_toList, hsz]
+  have hcc : compress c.h (pad (absA c).buf) (c.t + c.buflen) true = hv := hh
+  rw [hcc]
+  have hbl : (blit c.buf c.buflen (List.replicate (128 - c.buflen) 0)).length = 128 := by
+    rw [blit_length _ _ _ (by rw [hrep]; omega)]; exact hl
+  have := blit_take (blit c.buf c.buflen (List.replicate (128 - c.buflen) 0)) 0 (hv.toList.flatMap leBytes64) (by omega)
+  simp only [Nat.zero_add, List.take_zero, List.nil_append, hw] at this
+  have ho' : (absA c).outlen = c.outlen := rfl
+  rw [ho']
+  have : (blit (blit c.buf c.buflen (List.replicate (128 - c.buflen) 0)) 0 (hv.toList.flatMap leBytes64)).take c.outlen
+      = ((blit (blit c.buf c.buflen (List.replicate (128 - c.buflen) 0)) 0 (hv.toList.flatMap leBytes64)).take 64).take c.outlen := by
+    rw [List.take_take]; congr 1; omega
+  rw [this]
+  congr 1
+
+/-- the array-level transcription of the cryptoxide hasher equals the RFC 7693 digest for every chunking -/
+theorem stream_eq_oneshot_array (nn : Nat) (hn : nn ≤ 64) (chunks : List Bytes) :
+    finalizeMut (chunks.foldl updateMut (initA nn)) = blake2b nn chunks.flatten := by
+  obtain ⟨h0, i0⟩ := initA_refines nn
+  obtain ⟨h1, h2⟩ := foldl_updateMut_refines chunks (initA nn) i0
+  have hout : (chunks.foldl updateMut (initA nn)).outlen = nn := by
+    have : (absA (chunks.foldl updateMut (initA nn))).outlen = nn := by
+      rw [h1, h0]
+      have := foldl_inv nn chunks [] (init nn) (init_inv nn)
+      exact this.2.2.2
+    exact this
+  rw [finalizeMut_refines _ h2 (by omega), h1, h0, stream_eq_oneshot]
+
+/-! ## The one-shot reference is RFC 7693 §3.3 as printed -/
+
+theorem foldl_range_succ {α : Type} (f : α → Nat → α) (a : α) (n : Nat) :
+    (List.range (n + 1)).foldl f a = (List.range n).foldl (fun x i => f x (i + 1)) (f a 0) := by
+  rw [List.range_succ_eq_map, List.foldl_cons, List.foldl_map]
+
+theorem pad_full (b : Bytes) (h : b.length = 128) : pad b = b := by simp [pad, h]
+
+theorem rfcBlocks_eq_indexed (h : H) (t : Nat) (data : Bytes) :
+    rfcBlocks h t data =
+      compress ((List.range (rfcDd data.length - 1)).foldl
+          (fun h i => compress h (rfcBlock data i) (t + (i + 1) * 128) false) h)
+        (rfcBlock data (rfcDd data.length - 1)) (t + data.length) true := by
+  fun_induction rfcBlocks h t data with
+  | case1 h t data hd ih =>
+    have hlen : (data.drop 128).length = data.length - 128 := by simp
+    have hdd : rfcDd data.length - 1 = (rfcDd (data.drop 128).length - 1) + 1 := by
+      simp only [rfcDd, hlen]
+      have h1 : ¬ data.length = 0 := by omega
+      simp only [h1, ↓reduceIte]
+      split <;> omega
+    rw [ih, hdd, foldl_range_succ]
+    have hb0 : rfcBlock data 0 = data.take 128 := by
+      simp only [rfcBlock, Nat.mul_zero, List.drop_zero]
+      exact pad_full _ (by simp; omega)
+    have hbi : ∀ i, rfcBlock data (i + 1) = rfcBlock (data.drop 128) i := by
+      intro i; simp only [rfcBlock, List.drop_drop]; congr 3; omega
+    have hcnt : ∀ i, t + (i + 1 + 1) * 128 = t + 128 + (i + 1) * 128 := by intro i; omega
+    simp only [hb0, hbi, hcnt, Nat.zero_add, Nat.one_mul]
+    congr 1
+    rw [hlen]; omega
+  | case2 h t data hd =>
+    have hdd : rfcDd data.length - 1 = 0 := by
+      simp only [rfcDd]; split <;> omega
+    simp [hdd, rfcBlock]
+    congr 2
+    exact (List.take_of_length_le (by omega)).symm
+
+/-- the model's one-shot digest is RFC 7693 §3.3 as printed (block array, `FOR i = 0 TO dd − 2`) -/
+theorem blake2b_eq_rfc_indexed (nn : Nat) (data : Bytes) : blake2b nn data = blake2bRfc nn data := by
+  unfold blake2b blake2bRfc
+  rw [rfcBlocks_eq_indexed]
+  simp
+
 /-! ## The pallas entry points -/
 
 theorem hash_eq (bits : Nat) (bytes : Bytes) : hash bits bytes = blake2b (bits / 8) bytes := by
@@ -236,6 +413,24 @@ theorem hash_from_str_rejects (n : Nat) (s : Bytes) (hs : s.length ≠ 2 * n) :
   cases hr : hashFromStr n s with
   | error e => exact ⟨e, rfl⟩
   | ok r => exact absurd (hash_from_str_length n s r hr).2 hs
+
+/-- serde: serialising to a JSON string and deserialising returns the hash -/
+theorem hash_json_roundtrip (n : Nat) (h : Bytes) (hl : h.length = n) : hashOfJson n (hashToJson h) = some h := by
+  have hbody : ∀ c ∈ hashToHex h, c ≠ 0x22 ∧ c ≠ 0x5c ∧ c.toNat ≥ 0x20 := by
+    intro c hc
+    simp only [hashToHex, List.mem_flatMap] at hc
+    obtain ⟨b, _, hb⟩ := hc
+    have hd : ∀ k, k < 16 → hexDigitByte k ≠ 0x22 ∧ hexDigitByte k ≠ 0x5c ∧ (hexDigitByte k).toNat ≥ 0x20 := by decide
+    have hbl : b.toNat < 256 := UInt8.toNat_lt b
+    simp only [List.mem_cons, List.not_mem_nil, or_false] at hb
+    rcases hb with rfl | rfl
+    · exact hd _ (by omega)
+    · exact hd _ (by omega)
+  have hall : (hashToHex h).all (fun c => decide (c ≠ 0x22 ∧ c ≠ 0x5c ∧ c.toNat ≥ 0x20)) = true := by
+    rw [List.all_eq_true]; intro c hc; exact decide_eq_true (hbody c hc)
+  simp only [hashToJson, List.cons_append, List.nil_append, hashOfJson]
+  simp [List.getLast?_append, hash_hex_roundtrip n h hl]
+  exact hbody
 
 /-! ## `Hash<N>`: CBOR -/
 
